@@ -22,6 +22,13 @@ import (
 type replayResult struct {
 	path       string
 	reproduced bool
+	output     string // output of the go test run of the replay
+}
+
+// namesProperty: the failing run's message names the property (templates prefix each oracle
+// message with the property whose statement failed: "C03: ...", "C06/C07: ...").
+func namesProperty(out, prop string) bool {
+	return strings.Contains(out, prop+":") || strings.Contains(out, prop+"/") || strings.Contains(out, "/"+prop) || strings.Contains(out, prop+" (")
 }
 
 type ReplayFile struct {
@@ -57,6 +64,7 @@ func writeReplay(o *Options, ob *Obligation) replayResult {
 		if v, _ := rp["reproduced"].(bool); v {
 			res.reproduced = true
 		}
+		res.output, _ = rp["go_test_output"].(string)
 	}
 	searched := false
 	if rf.Replay != nil {
